@@ -171,7 +171,7 @@ Ltac start_case A AP m th th' :=
 Lemma lib_unfold : forall k r args th m, LibV (S k) r (map (app th) args) -> Forall (tb m) args ->
   exists d c nv th', find_def r lib_defs = Some d /\
     elab lib_defs efuel BFS (combine (d_params d) args) (GConj [d_body d]) m = (c, nv) /\
-    agree m th th' /\ DenV LibV k th' c /\ flatV c.
+    agree m th th' /\ DenV lib_defs LibV k th' c /\ flatV c.
 Proof.
   intros k r args th m HR HA. cbn [LibV] in HR.
   destruct (Nat.eqb r rel_append) eqn:Er.
